@@ -135,6 +135,32 @@ INFO = {
  'C07-m7': ("the nil-yield guard and the already-stopped guard of the SubscribeContext iterator merged (same site and effect as C06-m7, written independently)", 'a SubscribeContext context cancelled before its iterator is used, then the iterator called with a nil yield (panic recovered) while another subscriber stands: second unsubscribe, later negative-subscribers panic and a broken instance'),
  'C03-m7': ("the cleaner is evaluated with the buffer lock released, behind a staleness check on size, offset and consumer COUNT only", 'one consumer closes and another is created while the evaluation is in progress (count unchanged): the stale shift is applied and evicts values the newcomer, which committed nothing, has not read'),
  'C03-m8': ("Buffer.Slice stops copying once the buffer is closed", 'Close, Slice, the caller overwrites the returned slice, Slice again: the retained contents have changed'),
+ 'C01-m9': ("cleanupLogic clears the evicted slots in a background goroutine and keeps the backing array when everything was evicted", 'every consumer has committed everything (full drain), then a Put lands before the clearing goroutine has finished: accepted values are overwritten with nil'),
+ 'C01-m10': ("Put appends in pieces of at most 8192 values, taking the lock per piece", 'one Put of more than 8192 values overlapping another producer: its values are no longer one contiguous run'),
+ 'C02-m9': ("package Range does not roll back when its Get returns an error", 'reads left uncommitted when Range is entered and a Get inside Range that fails: they stay pending, the next read skips them and a later Commit makes them permanent'),
+ 'C02-m10': ("Buffer.commit rejects commits once the buffer context is cancelled", 'reads pending, Buffer.Close (which waits for them), then Commit: refused, Close never completes'),
+ 'C03-m9': ("ensure() assigns the consumers map without re-checking under the lock", 'the first NewConsumer on a zero-value Buffer racing another first call: the map holding the new consumer is replaced, the consumer is open but unregistered (Diff false, its values evicted)'),
+ 'C04-m9': ("ensure() assigns the default cleaner config without re-checking under the lock", 'SetCleanerConfig(FixedBufferCleaner) as the first call racing another first call: it returns nil but the default config replaces it, nothing is ever trimmed'),
+ 'C06-m9': ("SubscribeContext registers the cancellation clean-up before subscribing", 'a context already cancelled or expiring while Subscribe waits behind a Send: the clean-up unsubscribes a subscription that was never counted and drains a standing subscriber\'s delivery'),
+ 'C07-m9': ("mid-send unsubscribe: the in-flight ping is decremented before the subscriber count", 'a subscriber leaving in the middle of Send #1 and a Send #2 right behind it: Send #2 counts the leaver again and never returns'),
+ 'C07-m10': ("ordinary unsubscribe: the sending read-lock is released before the count is decremented", 'a Send taking its locks in that gap counts the leaver and waits for it forever'),
+ 'C08-m9': ("negative Add no longer panics when the two packed counts disagree", 'Add(MaxInt32) three times (two panics, recovered) pushes the counters back into range but apart: a following negative Add returns a bogus count instead of panicking'),
+ 'C10-m9': ("coalesced callers are all sent the same *ExclusiveOutcome", 'a caller that annotates the outcome it received before another caller of the same execution has read its own'),
+ 'C11-m9': ("Exclusive.call skips the item re-validation for the call that created the item", 'the creator overtaken between creating and locking the item by a joiner whose runner has already replaced it: registers on a replaced item, unsynchronised write vs the runner\'s read'),
+ 'C12-m9': ("cleanupLogic tests shift <= 0 before clamping the shift to the buffer length", 'a custom cleaner that asks for more than there is, evaluated on an empty buffer: reports progress for ever, the cleanup goroutine spins holding the buffer lock; Put, NewConsumer, Close never return'),
+ 'C13-m9': ("Channel.Get re-checks the caller\'s context after its critical section and reports the error", 'the Get\'s context cancelled between the entry check and the end of the critical section: the value was taken and counts as read, but no Get ever returns it'),
+ 'C14-m9': ("Wait checks its condition once, and idle-exiting workers broadcast whenever the queue is empty", 'a goroutine parked in Wait, one worker idling out and another still executing: Wait returns with Count() != 0'),
+ 'C14-m10': ("Wrap allocates one result channel per wrapper and workers no longer close it", 'one wrapped function invoked from two goroutines with completions out of order: each gets the other execution\'s result'),
+ 'C15-m9': ("Unsubscribe releases its lock explicitly on the success path only", 'an unmatched Unsubscribe (panic, recovered) and then any use of the Notifier: everything blocks'),
+ 'C15-m10': ("PublishContext builds its select cases in a buffer stored on the Notifier", 'two concurrent publishers (read lock only): one selects on the other\'s cases: duplicates, misses, cross-key deliveries'),
+ 'C16-m9': ("CombineContext\'s registration pass skips others that are already cancelled, guarded only by an all-cancelled check", 'two or more others and a cancellation landing between the check pass and the registration pass: that other is never wired up'),
+ 'C16-m10': ("CombineContext filters nil others in place, in the caller\'s variadic slice", 'a slice with a nil before a non-nil entry passed with ..., then reused for a second call: that call also watches a context of the first'),
+ 'C17-m9': ("the watcher no longer waits for the instance to exit; Do waits for the old instance once, without re-checking", 'two Dos queued behind one stopping instance, the first starts and fully releases a new generation before the straggler re-locks: a third instance starts while the second still runs'),
+ 'C18-m9': ("a nil context is no longer replaced by Background, only skipped in the per-iteration check", 'nil context, a plain error and a non-zero drawn delay: nil dereference in the wait'),
+ 'C18-m10': ("FatalError returns its argument unchanged when the chain already holds a fatal wrapper (errors.As)", 'a fatal error built in layers with a plain annotation in between: not recognised as fatal, the loop goes on'),
+ 'C19-m9': ("parameter and result type lists memoised on the per-Call config, shared by all options", 'two options of one kind in one Call (defaults first, then overrides): the in-place edits of the first corrupt the second'),
+ 'C19-m10': ("the nil-kind switch extracted into a helper that omits UnsafePointer", 'an untyped nil for an unsafe.Pointer parameter: spurious not-assignable error'),
+ 'C20-m9': ("the Done case falls through to the guard, behind a skip-when-buffer-full pre-check", 'a standard context cancelled while a value is still buffered and nobody receives: the producer spins for ever, the channel is never closed'),
 
 }
 
